@@ -300,7 +300,7 @@ func c20GoGoConformance(cx *Ctx, r *Report, gogo []*genFile) {
 			// tags
 			type tagInfo struct {
 				wire, label, name string
-				num             int
+				num               int
 			}
 			tags := map[int]tagInfo{}
 			oneofIfaceFields := 0
@@ -470,7 +470,7 @@ func c20PulsarConformance(cx *Ctx, r *Report, api []*genFile) {
 		for _, m := range a.fd.GetMessageType() {
 			rec(a.fd.GetPackage(), m)
 		}
-		byName := map[string]bool{}  // ByName("x") literals, just names
+		byName := map[string]bool{}   // ByName("x") literals, just names
 		caseFull := map[string]bool{} // case "pkg.Msg.field"
 		ast.Inspect(a.astFile, func(n ast.Node) bool {
 			switch x := n.(type) {
